@@ -856,14 +856,15 @@ pub fn run_c08(tier: Tier, seed: u64) -> i32 {
             let mut g = G::new(&mut qrng, f);
             g.total_order_limit = true;
             let q = match g.rng.below(10) {
-                0..=3 => loop {
+                0..=2 => loop {
                     g.tags.clear();
                     let q = g.q_simple(&db, 1);
                     if !q.keys.is_empty() {
                         break q;
                     }
                 },
-                4..=6 => g.q_agg(&db, 2),
+                // aggregates, mostly over joins (outer joins feeding multi-key GROUP BY is where spilled aggregation met join output)
+                3..=6 => g.q_agg(&db, 2),
                 _ => g.q_simple(&db, 2),
             };
             let sql = q.engine_sql();
@@ -917,8 +918,12 @@ pub fn run_c08(tier: Tier, seed: u64) -> i32 {
                         r.inconclusive = Some("explicit-error-under-limit(allowed)".into());
                         r.counts.push((format!("limit_err: {}", e.chars().take(70).collect::<String>()), 1));
                     }
+                    Outcome::Timeout => {
+                        // a loaded machine is not a verdict
+                        r.inconclusive = Some("timeout-under-limit".into());
+                    }
                     o => {
-                        r.fail = Some((format!("limit-panic-or-timeout"), format!("{} [limit {} B] :: {}", sql, l, o.short()), json!({"sql": sql, "memory_limit": l})));
+                        r.fail = Some((format!("limit-panic"), format!("{} [limit {} B] :: {}", sql, l, o.short()), json!({"sql": sql, "memory_limit": l})));
                     }
                 }
                 if qi == 0 && sd % 16 == 0 && *l == 16 << 10 {
